@@ -10,7 +10,7 @@ V = pathlib.Path(__file__).resolve().parents[1]
 sys.path.insert(0, str(V / "selftest"))
 
 def make_copy(mid):
-    d = pathlib.Path("/var/tmp/verif_mut") / mid
+    d = pathlib.Path("/var/tmp/verif_mut") / ("%s_%d" % (mid, os.getpid()))
     if d.exists(): shutil.rmtree(d)
     d.parent.mkdir(parents=True, exist_ok=True)
     subprocess.run(["rsync", "-a", "--exclude", ".git", "--exclude", "__pycache__", "--exclude", "*.egg-info", "/repo/", str(d) + "/"], check=True)
@@ -39,7 +39,7 @@ def main():
     mid, props = args[0], args[1:]
     name = pathlib.Path(mid).name if "/" in mid else mid
     d = make_copy(name); note = apply(mid, d)
-    out = pathlib.Path("/var/tmp/verif_mut") / (name + "_out"); shutil.rmtree(out, ignore_errors=True); out.mkdir(parents=True)
+    out = pathlib.Path("/var/tmp/verif_mut") / ("%s_%d_out" % (name, os.getpid())); shutil.rmtree(out, ignore_errors=True); out.mkdir(parents=True)
     res = {}
     for prop in props:
         env = dict(os.environ, VERIF_REPO=str(d), VERIF_WORK=str(out / "work"), VERIF_EVID=str(out / "evidence"))
